@@ -180,6 +180,32 @@ func TestC20(t *testing.T) {
 				}
 			}
 		}
+		// 1a-3. ragged matrices: long and short rows alternating (or growing) in documents of
+		// several megabytes - a per-row reservation that looks at the rest of the document
+		// instead of the row is quadratic only here
+		if e.enumStage("ragged", "8 variants (rows of numbers / objects; alternating, mostly short, growing) x (rows, long, short) in {(480, 2500, 1), (2000, 600, 2); thorough also (2000, 2500, 1)} x {ReadValue, pkg.ReadArray}", true) {
+			sizes := [][3]int64{{480, 2500, 1}, {2000, 600, 2}}
+			if e.cfg.Thorough() {
+				sizes = append(sizes, [3]int64{2000, 2500, 1})
+			}
+			idx := 0
+		rg:
+			for v := int64(0); v < 8; v++ {
+				for _, sz := range sizes {
+					for _, fn := range []string{"ReadValue", "pkg.ReadArray"} {
+						idx++
+						if !e.cfg.Mine(idx) {
+							continue
+						}
+						steps := []core.Case{{Kind: fn, Strs: []string{"ragged"}, Ints: []int64{1, 0, sz[0], sz[1], sz[2], v}}}
+						if err := runHistory("ragged", steps, true); err != nil {
+							r.Fail(caseOf("C20", "ragged", nil, err), err)
+							break rg
+						}
+					}
+				}
+			}
+		}
 		// 1b. cross-entry-point grid: a big document through one entry point, then many small
 		// ones through another, on the same reader and buffer (size hints that outlive the call
 		// they were learned in, in every pairing of entry points)
